@@ -1,1 +1,583 @@
-//! Text generators (token soup, layout printer, mutations).
+//! Text generators: token soup, the harness's own "layout printer" (a
+//! token-level printer with random trivia and alternative spellings), and
+//! byte-level mutations.
+
+use crate::rng::Rng;
+use lexpr::Value;
+
+// ------------------------------------------------------------------ trivia
+
+#[derive(Clone, Copy, PartialEq, Debug)]
+pub enum TriviaSet {
+    /// space, tab, CR, LF, line comments
+    Basic,
+    /// Basic + form feed
+    WithFormFeed,
+}
+
+pub const COMMENT_BODIES: &[&str] = &["", " c", " (a . b) \"x", "; λ 中", " #| x |#", " ) ] '", "\t;;"];
+
+pub fn trivia_piece(rng: &mut Rng, set: TriviaSet, out: &mut String) {
+    let k = if set == TriviaSet::WithFormFeed { 6 } else { 5 };
+    match rng.below(k) {
+        0 => out.push(' '),
+        1 => out.push('\t'),
+        2 => out.push('\n'),
+        3 => out.push('\r'),
+        4 => {
+            out.push(';');
+            out.push_str(*rng.pick::<&str>(COMMENT_BODIES));
+            out.push('\n');
+        }
+        _ => out.push('\x0C'),
+    }
+}
+
+/// `min` = 0: optional trivia; 1: at least one separator.
+pub fn trivia(rng: &mut Rng, set: TriviaSet, min: usize, out: &mut String) {
+    let n = match rng.below(6) {
+        0 | 1 | 2 => min,
+        3 => min.max(1),
+        4 => 2,
+        _ => rng.range(min, 4),
+    };
+    for _ in 0..n {
+        trivia_piece(rng, set, out);
+    }
+}
+
+// ------------------------------------------------------------- layout printer
+
+#[derive(Clone, Copy, PartialEq, Debug)]
+pub enum Lang {
+    Scheme,
+    Elisp,
+}
+
+#[derive(Clone, Copy, PartialEq, Debug)]
+enum Kind {
+    Open,      // ( or [
+    HashOpen,  // #( #u8( #vu8(
+    Close,
+    Atom,
+    Prefix,
+    Dot,
+}
+
+#[derive(Clone, Debug)]
+pub struct Tok {
+    text: String,
+    kind: Kind,
+}
+
+#[derive(Clone, Copy, Debug)]
+pub struct LayoutCfg {
+    pub lang: Lang,
+    pub trivia: TriviaSet,
+    /// use alternative spellings (radix prefixes, escapes, char names, brackets, dotted proper lists, quote shorthands)
+    pub alt_spellings: bool,
+    /// never emit exponent-without-fraction floats etc.? no: spell floats only in forms the C05 grammar has
+    pub brackets_as_list: bool,
+}
+
+fn tok(text: impl Into<String>, kind: Kind) -> Tok {
+    Tok { text: text.into(), kind }
+}
+
+const SCHEME_CHAR_NAMES: &[(&str, char)] = &[
+    ("nul", '\0'),
+    ("alarm", '\x07'),
+    ("backspace", '\x08'),
+    ("tab", '\t'),
+    ("linefeed", '\n'),
+    ("newline", '\n'),
+    ("vtab", '\x0B'),
+    ("page", '\x0C'),
+    ("return", '\r'),
+    ("esc", '\x1B'),
+    ("space", ' '),
+    ("delete", '\x7F'),
+];
+
+fn spell_int(rng: &mut Rng, cfg: &LayoutCfg, neg: bool, mag: u64) -> String {
+    let sign = if neg { "-" } else if cfg.alt_spellings && cfg.lang == Lang::Scheme && rng.chance(1, 6) { "+" } else { "" };
+    if !cfg.alt_spellings || rng.chance(1, 2) {
+        return format!("{}{}", sign, mag);
+    }
+    let zeros = ["", "0", "00", "000"][rng.below(4)];
+    match (cfg.lang, rng.below(5)) {
+        (Lang::Scheme, 0) => format!("#x{}{}{:x}", sign, zeros, mag),
+        (Lang::Scheme, 1) => format!("#x{}{}{:X}", sign, zeros, mag),
+        (Lang::Scheme, 2) => format!("#b{}{}{:b}", sign, zeros, mag),
+        (Lang::Scheme, 3) => format!("#o{}{}{:o}", sign, zeros, mag),
+        (Lang::Scheme, _) => format!("#d{}{}{}", sign, zeros, mag),
+        (Lang::Elisp, _) => format!("{}{}", sign, mag),
+    }
+}
+
+/// Spell a finite double as a literal of the grammar digits[.digits][e[+-]digits].
+pub fn spell_float(rng: &mut Rng, alt: bool, f: f64) -> String {
+    let shortest = format!("{:?}", f); // e.g. 1.5, 1e21, 1.2e-7, 0.1, -0.0
+    if !alt || rng.chance(1, 2) {
+        return shortest;
+    }
+    match rng.below(3) {
+        0 => format!("{:e}", f).replace('e', if rng.bool() { "e" } else { "E" }),
+        1 => {
+            // explicit + on the exponent
+            let s = format!("{:e}", f);
+            match s.split_once('e') {
+                Some((m, e)) if !e.starts_with('-') => format!("{}e+{}", m, e),
+                _ => s,
+            }
+        }
+        _ => {
+            // ensure a fraction is present: d.ddde<exp> with trailing zero
+            let s = format!("{:e}", f);
+            match s.split_once('e') {
+                Some((m, e)) if !m.contains('.') => format!("{}.0e{}", m, e),
+                _ => s,
+            }
+        }
+    }
+}
+
+fn scheme_string(rng: &mut Rng, alt: bool, s: &str) -> String {
+    let mut out = String::from("\"");
+    for c in s.chars() {
+        let must_escape = c == '"' || c == '\\';
+        if !must_escape && !(alt && rng.chance(1, 4)) {
+            // raw (including control characters, which are legal inside a string)
+            out.push(c);
+            continue;
+        }
+        let mn = match c {
+            '"' => Some("\\\""),
+            '\\' => Some("\\\\"),
+            '\x07' => Some("\\a"),
+            '\x08' => Some("\\b"),
+            '\t' => Some("\\t"),
+            '\n' => Some("\\n"),
+            '\r' => Some("\\r"),
+            '\x0B' => Some("\\v"),
+            '\x0C' => Some("\\f"),
+            '|' => Some("\\|"),
+            _ => None,
+        };
+        match mn {
+            Some(m) if must_escape || rng.bool() => out.push_str(m),
+            _ => {
+                if rng.bool() {
+                    out.push_str(&format!("\\x{:x};", c as u32));
+                } else {
+                    out.push_str(&format!("\\x{:04X};", c as u32));
+                }
+            }
+        }
+    }
+    out.push('"');
+    out
+}
+
+fn elisp_string(rng: &mut Rng, alt: bool, s: &str) -> String {
+    // multibyte strings only: never use \x / octal escapes (they could make the
+    // string unibyte); use \uNNNN, \U00NNNNNN, \N{U+X} and mnemonic escapes.
+    let mut out = String::from("\"");
+    for c in s.chars() {
+        let must_escape = c == '"' || c == '\\';
+        if !must_escape && !(alt && rng.chance(1, 4)) {
+            out.push(c);
+            continue;
+        }
+        let mn = match c {
+            '"' => Some("\\\""),
+            '\\' => Some("\\\\"),
+            '\x07' => Some("\\a"),
+            '\x08' => Some("\\b"),
+            '\t' => Some("\\t"),
+            '\n' => Some("\\n"),
+            '\r' => Some("\\r"),
+            '\x0B' => Some("\\v"),
+            '\x0C' => Some("\\f"),
+            '\x1B' => Some("\\e"),
+            ' ' => Some("\\s"),
+            '\x7F' => Some("\\d"),
+            _ => None,
+        };
+        match mn {
+            Some(m) if must_escape || rng.bool() => out.push_str(m),
+            _ => match rng.below(3) {
+                0 if (c as u32) <= 0xFFFF => out.push_str(&format!("\\u{:04x}", c as u32)),
+                1 => out.push_str(&format!("\\U{:08X}", c as u32)),
+                _ => out.push_str(&format!("\\N{{U+{:X}}}", c as u32)),
+            },
+        }
+    }
+    out.push('"');
+    out
+}
+
+fn scheme_char(rng: &mut Rng, alt: bool, c: char) -> String {
+    let n = c as u32;
+    if alt && rng.chance(1, 3) {
+        for (name, ch) in SCHEME_CHAR_NAMES {
+            if *ch == c && rng.bool() {
+                return format!("#\\{}", name);
+            }
+        }
+        return format!("#\\x{:x}", n);
+    }
+    if (33..127).contains(&n) {
+        // 'x' followed by hex digits would be a hex escape; a lone #\x is fine
+        format!("#\\{}", c)
+    } else if n > 127 && alt && rng.bool() {
+        format!("#\\{}", c) // raw UTF-8
+    } else {
+        format!("#\\x{:X}", n)
+    }
+}
+
+fn elisp_char(rng: &mut Rng, alt: bool, c: char) -> String {
+    let n = c as u32;
+    if alt && rng.chance(1, 3) {
+        return match rng.below(4) {
+            0 => format!("?\\x{:x}", n),
+            1 if n <= 0xFFFF => format!("?\\u{:04x}", n),
+            2 => format!("?\\U{:08x}", n),
+            _ => format!("?\\N{{U+{:x}}}", n),
+        };
+    }
+    if (33..127).contains(&n) {
+        if b"()[]\\;|'`#.,\"?".contains(&(n as u8)) {
+            format!("?\\{}", c)
+        } else {
+            format!("?{}", c)
+        }
+    } else if n > 127 && alt && rng.bool() {
+        format!("?{}", c)
+    } else {
+        format!("?\\x{:x}", n)
+    }
+}
+
+fn quote_sigil(v: &Value) -> Option<(&'static str, &Value)> {
+    // (quote x) etc. as a proper two-element list
+    let c = v.as_cons()?;
+    let head = c.car().as_symbol()?;
+    let sig = match head {
+        "quote" => "'",
+        "quasiquote" => "`",
+        "unquote" => ",",
+        "unquote-splicing" => ",@",
+        _ => return None,
+    };
+    let rest = c.cdr().as_cons()?;
+    if !rest.cdr().is_null() {
+        return None;
+    }
+    Some((sig, rest.car()))
+}
+
+pub fn tokens(rng: &mut Rng, cfg: &LayoutCfg, v: &Value, out: &mut Vec<Tok>) {
+    let alt = cfg.alt_spellings;
+    match v {
+        Value::Nil => out.push(tok("#nil", Kind::Atom)),
+        Value::Null => {
+            if cfg.lang == Lang::Elisp && rng.bool() {
+                out.push(tok("nil", Kind::Atom));
+            } else {
+                out.push(tok("(", Kind::Open));
+                out.push(tok(")", Kind::Close));
+            }
+        }
+        Value::Bool(b) => out.push(tok(if *b { "#t" } else { "#f" }, Kind::Atom)),
+        Value::Number(n) => {
+            let text = if let Some(u) = n.as_u64() {
+                spell_int(rng, cfg, false, u)
+            } else if let Some(i) = n.as_i64() {
+                spell_int(rng, cfg, true, i.unsigned_abs())
+            } else {
+                spell_float(rng, alt, n.as_f64().unwrap())
+            };
+            out.push(tok(text, Kind::Atom));
+        }
+        Value::Char(c) => out.push(tok(
+            match cfg.lang {
+                Lang::Scheme => scheme_char(rng, alt, *c),
+                Lang::Elisp => elisp_char(rng, alt, *c),
+            },
+            Kind::Atom,
+        )),
+        Value::String(s) => out.push(tok(
+            match cfg.lang {
+                Lang::Scheme => scheme_string(rng, alt, s),
+                Lang::Elisp => elisp_string(rng, alt, s),
+            },
+            Kind::Atom,
+        )),
+        Value::Symbol(s) => out.push(tok(s.to_string(), Kind::Atom)),
+        Value::Keyword(s) => out.push(tok(
+            match cfg.lang {
+                Lang::Scheme => format!("#:{}", s),
+                Lang::Elisp => format!(":{}", s),
+            },
+            Kind::Atom,
+        )),
+        Value::Bytes(b) => match cfg.lang {
+            Lang::Scheme => {
+                out.push(tok(if alt && rng.bool() { "#vu8(" } else { "#u8(" }, Kind::HashOpen));
+                for x in b.iter() {
+                    let t = if alt {
+                        match rng.below(4) {
+                            0 => format!("#x{:x}", x),
+                            1 => format!("#o{:o}", x),
+                            2 => format!("#b{:b}", x),
+                            _ => format!("{}", x),
+                        }
+                    } else {
+                        format!("{}", x)
+                    };
+                    out.push(tok(t, Kind::Atom));
+                }
+                out.push(tok(")", Kind::Close));
+            }
+            Lang::Elisp => {
+                // unibyte string; needs at least one byte escape to be unibyte
+                let mut s = String::from("\"");
+                for (i, x) in b.iter().enumerate() {
+                    if i == 0 || *x >= 0x80 || *x < 0x20 || *x == b'"' || *x == b'\\' || *x == 0x7f || rng.bool() {
+                        s.push_str(&format!("\\{:03o}", x));
+                    } else {
+                        s.push(*x as char);
+                    }
+                }
+                s.push('"');
+                out.push(tok(s, Kind::Atom));
+            }
+        },
+        Value::Vector(xs) => {
+            let (o, c) = match cfg.lang {
+                Lang::Scheme => ("#(", ")"),
+                Lang::Elisp => ("[", "]"),
+            };
+            out.push(tok(o, if o == "[" { Kind::Open } else { Kind::HashOpen }));
+            for x in xs.iter() {
+                tokens(rng, cfg, x, out);
+            }
+            out.push(tok(c, Kind::Close));
+        }
+        Value::Cons(cell) => {
+            if alt && rng.chance(1, 2) {
+                if let Some((sig, inner)) = quote_sigil(v) {
+                    out.push(tok(sig, Kind::Prefix));
+                    tokens(rng, cfg, inner, out);
+                    return;
+                }
+            }
+            let (o, c) = if cfg.brackets_as_list && alt && rng.chance(1, 4) { ("[", "]") } else { ("(", ")") };
+            out.push(tok(o, Kind::Open));
+            let mut cur = cell;
+            loop {
+                tokens(rng, cfg, cur.car(), out);
+                match cur.cdr() {
+                    Value::Null => break,
+                    Value::Cons(next) => {
+                        // optionally spell the rest of a list in dotted form: (a . (b c))
+                        // (only with a parenthesised tail and a ')' closer -- the
+                        // documented dotted-tail syntax)
+                        if alt && o == "(" && rng.chance(1, 8) {
+                            out.push(tok(".", Kind::Dot));
+                            let rest = cur.cdr();
+                            let save = *cfg;
+                            let mut plain = save;
+                            plain.brackets_as_list = false;
+                            // do not let the tail choose quote shorthand: (a . 'b) means (a quote b)
+                            let mut sub = Vec::new();
+                            tokens_list_plain(rng, &plain, rest, &mut sub);
+                            out.extend(sub);
+                            break;
+                        }
+                        cur = next;
+                    }
+                    tail => {
+                        out.push(tok(".", Kind::Dot));
+                        tokens(rng, cfg, tail, out);
+                        break;
+                    }
+                }
+            }
+            out.push(tok(c, Kind::Close));
+        }
+    }
+}
+
+/// A cons value spelled as a plain parenthesised list (no sigils, no brackets).
+fn tokens_list_plain(rng: &mut Rng, cfg: &LayoutCfg, v: &Value, out: &mut Vec<Tok>) {
+    match v {
+        Value::Cons(cell) => {
+            out.push(tok("(", Kind::Open));
+            let mut cur = cell;
+            loop {
+                tokens(rng, cfg, cur.car(), out);
+                match cur.cdr() {
+                    Value::Null => break,
+                    Value::Cons(next) => cur = next,
+                    tail => {
+                        out.push(tok(".", Kind::Dot));
+                        tokens(rng, cfg, tail, out);
+                        break;
+                    }
+                }
+            }
+            out.push(tok(")", Kind::Close));
+        }
+        other => tokens(rng, cfg, other, out),
+    }
+}
+
+/// Is a separator required between adjacent tokens a and b?
+fn sep_required(a: &Tok, b: &Tok) -> bool {
+    use Kind::*;
+    match (a.kind, b.kind) {
+        (Open, _) | (HashOpen, _) => false,
+        (_, Close) => false,
+        (Prefix, _) => a.text == "," && b.text.starts_with('@'),
+        (Close, Dot) => false,
+        (Close, Open) | (Close, HashOpen) | (Close, Atom) | (Close, Prefix) => {
+            // after a closer anything may follow directly
+            false
+        }
+        (Dot, Open) => b.text != "(",
+        (Dot, _) => true,
+        (Atom, Open) => {
+            // a( is fine: '(' and '[' terminate every atom
+            // ...except after a character literal or '#' forms where R7RS wants a delimiter: both are delimiters
+            false
+        }
+        (Atom, HashOpen) | (Atom, Atom) | (Atom, Prefix) | (Atom, Dot) => true,
+    }
+}
+
+/// Join tokens with random trivia. Returns the text and, for each token, its
+/// byte range in the text.
+pub fn join(rng: &mut Rng, set: TriviaSet, toks: &[Tok], lead_trail: bool) -> String {
+    let mut out = String::new();
+    if lead_trail {
+        trivia(rng, set, 0, &mut out);
+    }
+    for (i, t) in toks.iter().enumerate() {
+        if i > 0 {
+            let req = sep_required(&toks[i - 1], t);
+            trivia(rng, set, if req { 1 } else { 0 }, &mut out);
+        }
+        out.push_str(&t.text);
+    }
+    if lead_trail {
+        trivia(rng, set, 0, &mut out);
+        if rng.chance(1, 8) {
+            // final comment without newline
+            if !out.ends_with(|c: char| c == ' ' || c == '\n' || c == '\t' || c == '\r' || c == ')' || c == ']' || c == '"') {
+                out.push(' ');
+            }
+            out.push_str("; trailing comment");
+        }
+    }
+    out
+}
+
+/// Minimal layout (single spaces where required, nothing elsewhere).
+pub fn join_minimal(toks: &[Tok]) -> String {
+    let mut out = String::new();
+    for (i, t) in toks.iter().enumerate() {
+        if i > 0 && sep_required(&toks[i - 1], t) {
+            out.push(' ');
+        }
+        out.push_str(&t.text);
+    }
+    out
+}
+
+pub fn layout(rng: &mut Rng, cfg: &LayoutCfg, v: &Value) -> String {
+    let mut toks = Vec::new();
+    tokens(rng, cfg, v, &mut toks);
+    join(rng, cfg.trivia, &toks, true)
+}
+
+// --------------------------------------------------------------- token soup
+
+pub const SOUP: &[&str] = &[
+    "(", ")", "[", "]", "#(", "#u8(", "#vu8(", " ", " ", " ", "\n", "\t", "\r", "\x0C", ".", " . ", "'", "`", ",", ",@",
+    "#t", "#f", "#nil", "#n", "#true", "#", "#:", "#:kw", ":kw", "kw:", ":kw:", "::", ":", "nil", "t", "nil:", "nilx",
+    "0", "1", "-1", "+1", "42", "255", "256", "007", "1.5", "-0.0", "1e3", "1E-3", "1.5e+10", "1.", ".5", "1e", "1e+",
+    "1.5.6", "1+", "1-", "1/2", "0x10", "12ab", "#x1F", "#xFF", "#b101", "#o17", "#d10", "#x", "#b2", "#xg", "#x-1",
+    "18446744073709551615", "18446744073709551616", "-9223372036854775808", "-9223372036854775809", "1e400", "1e-400",
+    "+", "-", "...", "->x", "+a", "-a", "+.a", "..", ".a", "a.b", "a", "abc", "foo-bar", "λ", "λx", "x中", "é:", "$a",
+    "!x", "<=", "a|b", "a#b", "a'b", "a\"b\"", "#%app", "#%", "?a", "?\\(", "?\\x41", "?", "?\\^a", "?\\N{U+41}", "? ",
+    "#\\a", "#\\x", "#\\x41", "#\\space", "#\\sp", "#\\newline", "#\\λ", "#\\(", "#\\", "#\\x110000", "#\\xD800",
+    "\"\"", "\"a\"", "\"a b\"", "\"\\n\"", "\"\\x41;\"", "\"\\x41\"", "\"\\q\"", "\"\\", "\"abc", "\"λ\"", "\"\\u00e9\"",
+    "\"\\101\"", "\"\\xff\"", "\"\\N{U+3bb}\"", "\"\\^a\"", "\"a\\ b\"", "\"\\U0001F600\"", "\"\\xD800;\"", "\"\\x110000;\"",
+    ";c\n", ";", "; (\n", "#|", "|", "||", "|a b|", "{", "}", "\\", "\\a", "@", ",@a", "^", "~", "_", "%",
+];
+
+pub const CORRUPT: &[u8] = &[0xFF, 0xC3, 0xE2, 0x80, 0x00, 0xF0, 0xED, 0xA0, 0xC0, 0xF8, 0x7F, 0x0C];
+
+pub fn token_soup(rng: &mut Rng, max_items: usize) -> Vec<u8> {
+    let n = rng.range(1, max_items);
+    let mut out: Vec<u8> = Vec::new();
+    for _ in 0..n {
+        out.extend_from_slice((*rng.pick::<&str>(SOUP)).as_bytes());
+        if rng.chance(1, 3) {
+            out.push(b' ');
+        }
+    }
+    out
+}
+
+pub fn corrupt(rng: &mut Rng, bytes: &mut Vec<u8>) {
+    if bytes.is_empty() {
+        bytes.push(*rng.pick(CORRUPT));
+        return;
+    }
+    let k = rng.range(1, 2);
+    for _ in 0..k {
+        let pos = rng.below(bytes.len() + 1);
+        let b = *rng.pick(CORRUPT);
+        if rng.bool() && pos < bytes.len() {
+            bytes[pos] = b;
+        } else {
+            bytes.insert(pos, b);
+        }
+    }
+}
+
+/// Byte-level mutation of (typically printer-produced) text.
+pub fn mutate(rng: &mut Rng, bytes: &[u8]) -> Vec<u8> {
+    let mut b = bytes.to_vec();
+    let k = rng.range(1, 3);
+    for _ in 0..k {
+        if b.is_empty() {
+            b.push(rng.below(256) as u8);
+            continue;
+        }
+        let pos = rng.below(b.len());
+        match rng.below(6) {
+            0 => b[pos] ^= 1 << rng.below(8),
+            1 => {
+                b.remove(pos);
+            }
+            2 => {
+                let x = b[pos];
+                b.insert(pos, x);
+            }
+            3 => b.truncate(pos),
+            4 => b[pos] = *rng.pick(b"()[]\"\\#.;'`, \n|:"),
+            _ => {
+                let piece = (*rng.pick::<&str>(SOUP)).as_bytes();
+                for (i, x) in piece.iter().enumerate() {
+                    b.insert(pos + i, *x);
+                }
+            }
+        }
+    }
+    b
+}
